@@ -54,7 +54,7 @@ def monitor(c):
         if a["kind"] != "genuine":
             if o["delivered"] != -1:
                 return i, "non-authentic record (%s) delivered payload %d" % (a["mut"], o["delivered"])
-            if claims_protection and a["decod"] and (o["emitted"] or o["closed"]):
+            if claims_protection and (a["decod"] or a["mut"].endswith(":uni13")) and (o["emitted"] or o["closed"]):
                 return i, "non-authentic protected record (%s) had an effect: emitted=%d closed=%s" % (
                     a["mut"], o["emitted"], o["closed"])
         else:
